@@ -285,6 +285,9 @@ def run(ctx):
                   "(e.g. ldmxcsr from a slot that was never written, or an unbalanced stack adjustment)" % (lab, "; ".join(sorted(set(bad)))), line=j.line)
     d6_used_recorded(db, rep)
 
+    # D8: generated stores into ex->accumulators[] are exactly slot-sized: nothing is written past the executor (shared with C07 D6)
+    import importlib as _il
+    _il.import_module("rules.c07").d6_acc_slot_width(db, rep, "D8-ACC-SLOT-WIDTH")
     # D7: the generated loops process exactly ex->n elements: the region counters tile n on every emitted path (shared with
     # C03 D10) - otherwise the function writes past the end of its destination arrays
     import emitsym
